@@ -145,13 +145,17 @@ def mfEps? (s : Style) (tok : String) : Option MF :=
     | none => none
 
 /-- `I(val)`, `lower-1`, `upper+1` stay inside the target type (and the argument is not negative for unsigned targets) -/
-def rtInRange (ity : IType) (v : FP f) : Bool :=
+def rtInRange (ity : IType) (isRound : Bool) (v : FP f) : Bool :=
   match v with
   | .fin n =>
     let t := FP.trunc v
     if ity.signed then decide (-(ity.hi - 2) ≤ t) && decide (t ≤ ity.hi - 2)
-    else decide (0 ≤ n) && decide (t ≤ ity.hi - 2)
+    else (decide (0 ≤ n) || (isRound && decide (-(2 ^ f.sh : Int) < n))) && decide (t ≤ ity.hi - 2)
   | _ => false
+
+/-- an unsigned `I` holds the integer `-1` (the integer below an argument in (-1,0)) as its largest value -/
+def showI (ity : IType) (r : Int) : String :=
+  if !ity.signed && r < 0 then toString (r + 2 ^ ity.bits) else toString r
 
 def mfFinite (c : Nat) : Bool := c < 256 && c / 8 % 16 != 15
 
@@ -200,8 +204,8 @@ def handle (line : String) : String :=
       | some f, some ity, some s, some r =>
         match parseFP? f v, parseEpsFP? f t s e with
         | some v, some e =>
-          if !(rtInRange ity v) then "skip" else
-          if op == "fround" then toString (round s r FP.trunc v e) else toString (trunc s (!ity.signed) r FP.trunc v e)
+          if !(rtInRange ity (op == "fround") v) then "skip" else
+          if op == "fround" then showI ity (round s r FP.trunc v e) else showI ity (trunc s (!ity.signed) r FP.trunc v e)
         | _, _ => "bad-op"
       | _, _, _, _ => "bad-op"
     else
@@ -209,9 +213,9 @@ def handle (line : String) : String :=
     match parseFT? t, parseIType? it, parseStyle? st, parseRStyle? rs, Dy.parse? v, Dy.parse? e with
     | some ft, some ity, some s, some r, some v, some e =>
       if !(okVal ft v && okEps ft e) then "skip" else
-      if !ity.signed && v < (0 : Dy) then "skip" else
+      if !ity.signed && v < (0 : Dy) && !(op == "round" && Dy.ofInt (-1) < v) then "skip" else
       let v := v.toRat; let e := e.toRat
-      if op == "round" then toString (roundRat s r v e) else toString (truncRat s (!ity.signed) r v e)
+      if op == "round" then showI ity (roundRat s r v e) else showI ity (truncRat s (!ity.signed) r v e)
     | _, _, _, _, _, _ => "bad-op"
   | ["laws", t, st, _, _, _] =>
     match parseFT? t, parseStyle? st with
